@@ -270,14 +270,8 @@ impl PartialEq for ListType {
                         .all(|(x, y)| x.eq_complex(y, &typecheck_flags))
             }
             (E::Open(t1), E::Open(t2)) => t1.eq_complex(t2, &typecheck_flags),
-            (E::Mixed(t1), E::Open(t2)) | (E::Open(t2), E::Mixed(t1)) => {
-                for ty in t1 {
-                    if !t2.eq_complex(ty, &TypecheckFlags::<&ClassType>::classless()) {
-                        return false;
-                    }
-                }
-                true
-            }
+            (E::Mixed(t1), E::Open(t2)) => t1.iter().all(|ty| ty.eq_complex(t2, &typecheck_flags)),
+            (E::Open(t2), E::Mixed(t1)) => t1.iter().all(|ty| t2.eq_complex(ty, &typecheck_flags)),
         }
     }
 }
